@@ -102,8 +102,8 @@ MUTANTS = [
      "    for suc_sim, adapt in sim.successors_to_wait_for.items():\n        futures.append(suc_sim.progress.has_reached(next_step + adapt))",
      "    for suc_sim, adapt in {}.items():\n        futures.append(suc_sim.progress.has_reached(next_step + adapt))", ["C16"]),
     ("rt_ceil_floor", "mosaik/scheduler.py",
-     "rt_progress = [TieredTime(ceil(rt_passed / world.rt_factor))]",
-     "rt_progress = [TieredTime(ceil(rt_passed / world.rt_factor) + 1)]", ["C17"]),
+     "            TieredTime(ceil(rt_passed / world.rt_factor)) + sim.from_world_time",
+     "            TieredTime(ceil(rt_passed / world.rt_factor) + 1) + sim.from_world_time", ["C17"]),
     ("set_event_le", "mosaik/simmanager.py",
      "        if event_time < self.world.until:", "        if event_time <= self.world.until:", ["C17"]),
     ("rt_check_sign", "mosaik/scheduler.py", "        if delta > 0:\n            if rt_strict:", "        if delta < 0:\n            if rt_strict:", ["C17"]),
